@@ -420,7 +420,8 @@ def run(ck):
                     idxs = [hh for kk, (hh, pre) in lmap.items() if pre is not None and 'active' in fmt(pre)]
                     if (len(inc.t) == 2 and inc.c == 0 and len(pos) == 1 and len(neg) == 1 and pos[0][0] == 'f' and neg[0][0] == 'f'
                             and pos[0][2] == 'used' and neg[0][2] == 'offset' and pos[0][1] == neg[0][1]
-                            and any(sym.contains(pos[0][1], hh) for hh in idxs)):
+                            and any(strip_cast(pos[0][1]) in (('+', strip_cast(pos[0][1])[1], hh), ('i', strip_cast(pos[0][1])[1], hh))
+                                    for hh in idxs if len(strip_cast(pos[0][1])) == 3)):
                         sum_ok = True
                     else:
                         bad = 'accumulator grows by %s per chunk, expected chunk[i].used - chunk[i].offset of the chunk under the loop index' % inc
